@@ -492,61 +492,71 @@ def run_property(prop_id: str, tier: str, base_seed: int, only: Optional[str] = 
         raise HarnessError(f"no clause matches {only}")
     nreg, reg_viol = run_regressions(prop, known)
 
-    tasks = []
-    for c in clauses:
-        ns = c.shards.get(tier, 1)
-        for s in range(ns):
-            tasks.append((prop_id, c.id, tier, base_seed, s, ns, set(known), shrink_cap))
     if procs is None:
         procs = int(os.environ.get("VERIF_PROCS", "0")) or (8 if tier == "quick" else 16)
-    procs = max(1, min(procs, len(tasks)))
-    # every task runs in a process forked from this one for that task alone: what a task generates must not depend on which other
-    # tasks the same worker happened to run before it (imported modules feed Hypothesis' pool of constants, the library keeps
-    # module-level state) - otherwise a run is not a function of the code and VERIF_SEED, and differs with the number of processes
-    ctx = mp.get_context("fork")
-    with ctx.Pool(procs, maxtasksperchild=1) as pool:
-        results = pool.map(run_task, tasks, chunksize=1)
-
-    errors = [r for r in results if "error" in r]
-    if errors:
-        for r in errors:
-            print(f"HARNESS-ERROR clause={r['clause_id']} shard={r['shard']}: {r['error']}", file=sys.stderr)
-            print(r["tb"], file=sys.stderr)
-        return 2
-
-    # merge ------------------------------------------------------------------------------
     per_clause: Dict[str, Dict[str, Any]] = {}
     buckets: Dict[str, Dict[str, Any]] = {}
     all_digests = {}
     overflow = False
-    for r in results:
-        pc = per_clause.setdefault(
-            r["clause_id"],
-            {"evaluations": 0, "cases": 0, "nontrivial": 0, "digests": {}, "classes": {}, "samples": [], "wall_s": 0.0, "shards": 0, "notes": []},
-        )
-        pc["evaluations"] += r["evaluations"]
-        pc["cases"] += r["cases"]
-        pc["nontrivial"] += r["nontrivial"]
-        pc["digests"].update(r["digests"])
-        overflow = overflow or r["digest_overflow"]
-        pc["wall_s"] += r["wall"]
-        pc["notes"].extend(r.get("notes") or [])
-        pc["shards"] += 1
-        for k, v in r["classes"].items():
-            pc["classes"][k] = pc["classes"].get(k, 0) + v
-        if len(pc["samples"]) < MAX_SAMPLES_PER_CLAUSE:
-            pc["samples"].extend(r["samples"][: MAX_SAMPLES_PER_CLAUSE - len(pc["samples"])])
-        for sig, b in r["buckets"].items():
-            cur = buckets.get(sig)
-            if cur is None:
-                buckets[sig] = dict(b)
-            else:
-                cur["count"] += b["count"]
-                better = (b["shrunk"] and not cur["shrunk"]) or (b["shrunk"] == cur["shrunk"] and b["size"] < cur["size"])
-                if better:
-                    cnt = cur["count"]
-                    cur.update(b)
-                    cur["count"] = cnt
+    # A clause names the classes of cases it must have produced (``required``).  Generation is random, so a class can be missed by
+    # bad luck under one seed; before that is called a harness error the clause is topped up - run again under seeds derived from
+    # VERIF_SEED and the round number, results added - at most three times.  Still a function of the code and VERIF_SEED.
+    pending = list(clauses)
+    for topup in range(4):
+        tasks = []
+        for c in pending:
+            ns = c.shards.get(tier, 1)
+            for sh in range(ns):
+                tasks.append((prop_id, c.id, tier, base_seed if topup == 0 else derive_seed(base_seed, "top-up", topup), sh, ns, set(known), shrink_cap))
+        nproc = max(1, min(procs, len(tasks)))
+        # every task runs in a process forked from this one for that task alone: what a task generates must not depend on which other
+        # tasks the same worker happened to run before it (imported modules feed Hypothesis' pool of constants, the library keeps
+        # module-level state) - otherwise a run is not a function of the code and VERIF_SEED, and differs with the number of processes
+        ctx = mp.get_context("fork")
+        with ctx.Pool(nproc, maxtasksperchild=1) as pool:
+            results = pool.map(run_task, tasks, chunksize=1)
+
+        errors = [r for r in results if "error" in r]
+        if errors:
+            for r in errors:
+                print(f"HARNESS-ERROR clause={r['clause_id']} shard={r['shard']}: {r['error']}", file=sys.stderr)
+                print(r["tb"], file=sys.stderr)
+            return 2
+
+        # merge ------------------------------------------------------------------------------
+        for r in results:
+            pc = per_clause.setdefault(
+                r["clause_id"],
+                {"evaluations": 0, "cases": 0, "nontrivial": 0, "digests": {}, "classes": {}, "samples": [], "wall_s": 0.0, "shards": 0, "notes": []},
+            )
+            pc["evaluations"] += r["evaluations"]
+            pc["cases"] += r["cases"]
+            pc["nontrivial"] += r["nontrivial"]
+            pc["digests"].update(r["digests"])
+            overflow = overflow or r["digest_overflow"]
+            pc["wall_s"] += r["wall"]
+            pc["notes"].extend(r.get("notes") or [])
+            if topup:
+                pc["notes"].append(f"top-up round {topup}: a required class had not been generated")
+            pc["shards"] += 1
+            for k, v in r["classes"].items():
+                pc["classes"][k] = pc["classes"].get(k, 0) + v
+            if len(pc["samples"]) < MAX_SAMPLES_PER_CLAUSE:
+                pc["samples"].extend(r["samples"][: MAX_SAMPLES_PER_CLAUSE - len(pc["samples"])])
+            for sig, b in r["buckets"].items():
+                cur = buckets.get(sig)
+                if cur is None:
+                    buckets[sig] = dict(b)
+                else:
+                    cur["count"] += b["count"]
+                    better = (b["shrunk"] and not cur["shrunk"]) or (b["shrunk"] == cur["shrunk"] and b["size"] < cur["size"])
+                    if better:
+                        cnt = cur["count"]
+                        cur.update(b)
+                        cur["count"] = cnt
+        pending = [c for c in clauses if any(per_clause.get(c.id, {"classes": {}})["classes"].get(req, 0) == 0 for req in c.required)]
+        if not pending:
+            break
 
     # vacuity: required classes must have been produced
     vacuous = []
